@@ -31,12 +31,14 @@ NaN / negative / infinite utilities and generator outputs outside [0,1) are outs
 
 What is FALSE of the code as written / observations (witnesses in section 5)
 ---------------------------------------------------------------------------
-* N5  (HISTORY — repaired in /repo by `fix: an anonymous region head reports the default utility, not zero`)
+* N5  (HISTORY — repaired in /repo by `fix: an anonymous region head reports the default utility, not zero`
+      and its completion for `deepReportChange / deepReportUtilize / deepReportRandomize` of the anonymous head)
       a headless nested region used to report utility `Utility{} * sub = 0` while a headed state's default
       `utility()` is 1; under `randomize` this made a Random region whose only top-rank candidates were
       headless nested regions select nothing although every `utility()` answer was positive
       (`INVALID_PRONG`, `HFSM2_BREAK`, and an out-of-bounds read `utilities[255]` in the nested case; found
-      by this proof effort, confirmed with UBSan).  Now `S_<EmptyT>::wrapUtility` returns `Utility{1}`:
+      by this proof effort, confirmed with UBSan).  Now the anonymous head answers `Utility{1}` in all passes
+      (model: `World.headUtility / headUtilityWrap … false = one`):
       `headless_region_reports_default`, `witness_N5_repaired`, `witness_headless_random_repaired`.
 * O1  `deepReportChange` of a SELECTABLE region resolves by resumable-or-0 and never calls `select()`,
       while `deepRequestChange` of the same region calls `select()` (`reportChange_selectable_ignores_select`).
@@ -252,7 +254,7 @@ example : (le (zero : Rat) (1/3) = true) ∧ (∀ u ∈ ([1/2, 0, 3, 5] : List R
 /-- `resolveRandom` consumes exactly one element of the generator stream per call. -/
 theorem resolveRandom_one_number (w : World U) (hid : Nat) (us : List U) (sum : U) (rks : List Int) (top : Int) :
     (w.resolveRandom hid us sum rks top).1.rng = w.rng.tail :=
-  World.resolveRandom_rng w hid us sum rks top
+  World.resolveRandom_rng_u w hid us sum rks top
 
 /-- **One random number per random region resolved.**  `calls` counts the `resolveRandom` calls along the
 recursion of a request (`Sig.resolve` is the only place that increments it: once per region resolved as
